@@ -212,6 +212,27 @@ def run(chk):
             return np.array(res["dynamics"][0].states + res["dynamics"][1].states)
         yield "AugmentedMPS+PtTebd", mps, (rho, rho.conj(), H)
 
+        def mftempo(r, h, o):
+            sf = oqupy.TimeDependentSystemWithField(lambda t, f: h + 0.1 * f.real * SZ)
+            mfs = oqupy.MeanFieldSystem([sf], field_eom=lambda t, st, f: -0.1 * f + 0.1 * np.trace(st[0] @ SZ))
+            d_ = oqupy.MeanFieldTempo(mfs, [oqupy.Bath(o, corr)], par, [r], 0.3 + 0j, 0.0).compute(0.3, progress_type="silent")
+            return np.append(np.array(d_.system_dynamics[0].states).reshape(-1), d_.fields)
+        yield "MeanFieldTempo", mftempo, (rho, H, O)
+
+        def mfdyn(r, h):
+            sf = oqupy.TimeDependentSystemWithField(lambda t, f: h + 0.1 * f.real * SZ)
+            mfs = oqupy.MeanFieldSystem([sf], field_eom=lambda t, st, f: -0.1 * f + 0.1 * np.trace(st[0] @ SZ))
+            d_ = oqupy.compute_dynamics_with_field(mfs, 0.3 + 0j, dt=0.1, num_steps=3, initial_state_list=[r], progress_type="silent")
+            return np.append(np.array(d_.system_dynamics[0].states).reshape(-1), d_.fields)
+        yield "compute_dynamics_with_field", mfdyn, (rho, H)
+
+        def gibbs(h):
+            g_ = oqupy.GibbsTempo(oqupy.System(h), oqupy.Bath(np.diag([1.0, -0.5]), oqupy.PowerLawSD(alpha=0.1, zeta=1, cutoff=3.0, cutoff_type="exponential", temperature=0.7)),
+                                  oqupy.GibbsParameters(n_steps=4, epsrel=1e-8))
+            g_.compute(progress_type="silent")
+            return np.array(g_.get_state())
+        yield "GibbsTempo", gibbs, (H,)
+
         def corr2(a, b, r):
             pt = oqupy.process_tensor.SimpleProcessTensor(2, dt=0.1)
             for k in range(2):
@@ -416,6 +437,70 @@ def run(chk):
             meta.append(info)
             chk.count("holder_sequences")
             chk.case(info, ("holder-seq", name, tuple(ops)))
+
+    # ---- (b4) objects extended after they have been used: a later computation sees the additions (nothing derived from
+    # the earlier contents is kept) ---------------------------------------------------------------------------------------
+    for name in ("Control", "ChainControl", "SystemChain"):
+        info = {"extended_after_use": name}
+        chk.search_cases += 1
+        chk.count("extended_after_use")
+        chk.case(info, ("extended", name))
+        K1, K2 = np.kron(SX, SX.conj()) + 0j, np.kron(SY, SY.conj()) + 0j
+        try:
+            if name == "Control":
+                def use(c_):
+                    return np.array(oqupy.compute_dynamics(oqupy.System(H), initial_state=rho, dt=0.1, num_steps=3, control=c_, progress_type="silent").states)
+
+                def build(full):
+                    c_ = oqupy.Control(2)
+                    c_.add_single(1, K1)
+                    if full:
+                        c_.add_single(1, K2)
+                        c_.add_single(0.2, K2, True)
+                    return c_
+                shared = build(False)
+                first = use(shared)
+                shared.add_single(1, K2)
+                shared.add_single(0.2, K2, True)
+            else:
+                def use(obj_):
+                    chain_, cc_ = obj_
+                    p_ = oqupy.PtTebd(oqupy.AugmentedMPS([rho, rho.conj()]), chain_, [None, None], oqupy.PtTebdParameters(dt=0.1, order=2, epsrel=1e-8),
+                                      dynamics_sites=[0, 1], chain_control=cc_)
+                    r_ = p_.compute(2, progress_type="silent")
+                    return np.array(r_["dynamics"][0].states + r_["dynamics"][1].states)
+
+                def build(full):
+                    chain_ = oqupy.SystemChain([2, 2])
+                    chain_.add_site_hamiltonian(0, H)
+                    chain_.add_nn_hamiltonian(0, SX, SZ)
+                    cc_ = oqupy.ChainControl([2, 2])
+                    cc_.add_single_site_control(K1, 0, 1)
+                    if full and name == "ChainControl":
+                        cc_.add_single_site_control(K2, 1, 1)
+                        cc_.add_single_site_control(K2, 0, 1, True)
+                    if full and name == "SystemChain":
+                        chain_.add_site_hamiltonian(1, O)
+                        chain_.add_nn_hamiltonian(0, SY, SX)
+                        chain_.add_site_dissipation(0, SX + 1j * SY, 0.3)
+                    return chain_, cc_
+                shared = build(False)
+                first = use(shared)
+                if name == "ChainControl":
+                    shared[1].add_single_site_control(K2, 1, 1)
+                    shared[1].add_single_site_control(K2, 0, 1, True)
+                else:
+                    shared[0].add_site_hamiltonian(1, O)
+                    shared[0].add_nn_hamiltonian(0, SY, SX)
+                    shared[0].add_site_dissipation(0, SX + 1j * SY, 0.3)
+            second = quiet(use, shared)
+            want1, want2 = quiet(use, build(False)), quiet(use, build(True))
+        except Exception as ex:
+            chk.fail("extended-raises", f"{name}: raises {ex!r}", info)
+            continue
+        if not np.allclose(first, want1, rtol=0, atol=1e-9) or not np.allclose(second, want2, rtol=0, atol=1e-9):
+            chk.fail("stale-after-extension:" + name, f"{name}: used in a computation, then extended through its add_* methods: the next computation differs from the one "
+                     f"with a freshly built equal object by {np.abs(second - want2).max():.2e}", info)
 
     # ---- (c) re-using objects in several computations = fresh objects ------------------------
     for it in range(6 if thorough else 3):
